@@ -105,6 +105,38 @@ func joinAll(items []string, sorted bool) string {
 	return strings.Join(items, "+")
 }
 
+// iterConsistent: every iterator of one Iter value reads the same tree - Routes(m, p) yields exactly the route All lists
+// for (m, p), Methods lists exactly the methods All mentions, and Reverse on a static pattern finds it when it is listed
+func (t *txnRun) iterConsistent(what string, it fox.Iter) {
+	all := map[string]*fox.Route{}
+	meths := map[string]bool{}
+	for m, r := range it.All() {
+		all[m+" "+r.Pattern()] = r
+		meths[m] = true
+	}
+	for _, p := range t.pool {
+		var got *fox.Route
+		n := 0
+		for _, r := range it.Routes(slices.Values([]string{p[0]}), p[1]) {
+			got = r
+			n++
+		}
+		if got != all[p[0]+" "+p[1]] || n > 1 {
+			t.oracle(what + ": Iter.Routes and Iter.All of the same Iter disagree on " + p[0] + " " + hx(p[1]))
+		}
+	}
+	n := 0
+	for m := range it.Methods() {
+		n++
+		if !meths[m] {
+			t.oracle(what + ": Iter.Methods lists " + m + ", of which Iter.All of the same Iter has no route")
+		}
+	}
+	if n != len(meths) {
+		t.oracle(what + ": Iter.Methods and Iter.All of the same Iter disagree on the number of methods")
+	}
+}
+
 func (t *txnRun) obsRouter(sorted bool) string {
 	lock := "0"
 	if fox.VerifWriterLocked(t.f) {
@@ -294,6 +326,7 @@ func (t *txnRun) read(a []string) (string, string) {
 		for m, r := range s.it.All() {
 			items = append(items, entry(m, r))
 		}
+		t.iterConsistent("iterator source", s.it)
 		return joinAll(items, false), joinAll(items, true)
 	}
 	var j string
@@ -327,6 +360,7 @@ func (t *txnRun) read(a []string) (string, string) {
 			for m, r := range it.All() {
 				items = append(items, entry(m, r))
 			}
+			t.iterConsistent("read A", it)
 			j = joinAll(items, true)
 			return joinAll(items, false)
 		case "L":
